@@ -38,7 +38,9 @@ RULE = ("five public functions x all 2^6 flag combinations x 1-3 (from,to) pairs
         "destinations often exist and partial paths are sometimes ambiguous), from-nodes with 5-8 children, full and "
         "partial from-paths, leading/trailing separators, 7 separators incl. multi-character, tree-to-tree with different "
         "root names; a malformed stream (length mismatch, name mismatch, wrong root, copy+delete, both merge flags, missing "
-        "from-path); never to_path=None with a merge flag, never a destination strictly inside the shifted subtree. "
+        "from-path); 'stale parent' calls (3-4 pairs in one call: a later pair's destination parent was created or used by an "
+        "earlier pair and has meanwhile been moved or deleted by an intermediate pair); some nodes carry a user attribute "
+        "with a leading underscore (_hid), which moves and copies with the node; never to_path=None with a merge flag, never a destination strictly inside the shifted subtree. "
         "non-trivial = at least one pair whose from-node exists and is not the root, tree >= 3 nodes; distinct = distinct lines")
 EXHAUSTIVE = {
     "quick": "all ordered tree shapes with <= 4 nodes (child k of every node is named by the k-th letter, so paths repeat "
@@ -131,7 +133,11 @@ def _call(d, src_root, dst_root, froms, tos):
 
 
 def _attrs(n):
-    return dict(n.describe(exclude_prefix="_", exclude_attributes=["name"]))
+    a = dict(n.describe(exclude_prefix="_", exclude_attributes=["name"]))
+    if "_hid" in vars(n):     # a user attribute with a leading underscore (set by the harness): part of the node as well
+        a["_hid"] = vars(n)["_hid"]
+        a = dict(sorted(a.items()))
+    return a
 
 
 def _ident(ids, n):
@@ -544,6 +550,8 @@ def rand_spec(rng, size, alphabet=ALPHA, root=None, attrs=True):
                 a = dict(s[1])
                 if i % 3 == 0:
                     a = {"k": rng.choice([None, True, False, "v", 7]), **a}
+                if i % 4 == 1:
+                    a = {"_hid": rng.choice([0, 5, "h"]), **a}
                 return (s[0], dict(sorted(a.items())), [go(c) for c in s[2]])
             spec = go(spec)
     return spec
@@ -796,6 +804,66 @@ def sibling_replace_case(rng):
     return mk_case(d, ("replace", "same-parent", "from-later" if fi > di else "from-earlier", "pairs=1"))
 
 
+def stale_parent_case(rng):
+    """three (or four) pairs in ONE call where a later pair's destination parent P was created (or already used) by an
+    earlier pair and has meanwhile been moved, deleted, overridden or merged away by an intermediate pair, so it has to
+    be looked up / created afresh: X -> P/x ; P -> Q/p (or deleted) ; Y -> P/y"""
+    for _ in range(50):
+        fn = rng.choice(["shift", "shift", "shift", "copy"])
+        dst = rand_spec(rng, rng.randint(5, 12), "abcdefgh")
+        paths = [p for p, _ in _paths(dst)]
+        if len(paths) < 5:
+            continue
+        def inside(a, b):   # a inside-or-equal b
+            return a[: len(b)] == b
+        A = rng.choice(paths)
+        fresh = rng.random() < 0.65
+        if fresh:
+            P = A + (rng.choice("xyz"),)
+        else:
+            cands = [p for p in paths if len(p) > 1]
+            P = rng.choice(cands)
+        others = [p for p in paths if len(p) > 1 and not inside(p, P) and not inside(P, p)]
+        if len(others) < 2:
+            continue
+        X = rng.choice(others)
+        ys = [p for p in others if not inside(p, X) and not inside(X, p)]
+        if not ys:
+            continue
+        Y = rng.choice(ys)
+        qs = [p for p in paths if not inside(p, P) and not inside(p, X) and not inside(p, Y) and p != P[:-1]]
+        fl = [0, 0, 0, 0, 0, 1] if rng.random() < 0.6 else _flagsets(rng)
+        fl[FP] = 1 if rng.random() < 0.7 else fl[FP]
+        if qs and (rng.random() < 0.75 or fn == "copy" or fl[MC] or fl[ML]):
+            Q = rng.choice(qs)
+            if rng.random() < 0.3:
+                Q = Q + (rng.choice("uvw"),)
+            mid_to = Q + (P[-1],)
+            kind = "moved"
+        else:
+            mid_to = None
+            kind = "deleted"
+        sep = rng.choice(SEPS)
+        dsep = rng.choice(SEPS)
+        froms = [X, P, Y]
+        tos = [P + (X[-1],), mid_to, P + (Y[-1],)]
+        if rng.random() < 0.3:      # a fourth pair into the place P went to
+            zs = [p for p in others if p not in (X, Y) and not inside(p, X) and not inside(p, Y) and not inside(X, p) and not inside(Y, p)]
+            if zs and mid_to is not None:
+                Z = rng.choice(zs)
+                froms.append(Z)
+                tos.append(mid_to + (Z[-1],))
+        d = {"fn": fn, "dst": dst, "src": None, "dsep": dsep, "ssep": dsep, "sep": sep, "flags": fl,
+             "from": [pstr(f, sep, lead=rng.random() < 0.3) if fl[FP] or rng.random() < 0.5 else pstr(f[-min(len(f), 2):], sep) for f in froms],
+             "to": [None if t is None else pstr(t, sep, lead=rng.random() < 0.3) for t in tos]}
+        if _sanitize(d) is None or len(d["from"]) < 3:
+            continue
+        tags = {fn, "stale-parent", "parent-" + kind, "parent-fresh" if fresh else "parent-existing", "pairs=%d" % len(d["from"])}
+        tags |= {FLAGS[k] for k in range(6) if fl[k]}
+        return mk_case(d, sorted(tags))
+    return random_case(rng)
+
+
 def corpus():
     cases = []
     # D4 witness: overriding + merge_children, first destination exists -> the pre-fix code stopped merging
@@ -878,6 +946,8 @@ def gen(rng: random.Random, tier: str):
         cases.append(wide_case(rng))
     for _ in range(200 if tier == "quick" else 2000):
         cases.append(sibling_replace_case(rng))
+    for _ in range(400 if tier == "quick" else 4000):
+        cases.append(stale_parent_case(rng))
     return cases
 
 
